@@ -2,7 +2,7 @@ CONFIG = dict(
     id="C16",
     engine="pure",
     technique="Lean 4 theorems (refinement of the concrete sync.Map/slice state to folds over the history, by induction over all histories) "
-              "over a hand-written model of channel.Service / Channel / FrontGroup / ClientSessions.PushMsg / pushLocal + differential "
+              "over a hand-written model of channel.Service / Channel (by name and through retained *Channel handles, bound or stale) / FrontGroup / ClientSessions.PushMsg / pushLocal + differential "
               "correspondence with the real code through a recording IPushMessager and recording fake client sessions",
     level_text="Machine-checked proof in Lean 4 that, for every history of create/fetch/delete/join/leave/broadcast operations over any "
                "channels, fronts and ids (duplicates, removals at any position) interleaved with session adds/removes, a broadcast hands the push "
@@ -10,39 +10,64 @@ CONFIG = dict(
                "first-occurrence removals (count = adds - successful leaves; a subsequence of the join sequence), nothing for other fronts or a "
                "missing channel; that operations on other channels/fronts and leaves of absent ids change nothing; that the service obeys the map "
                "laws; that ClientSessions.PushMsg delivers once per listed live id in order and skips unknown ids; and that the issuing "
-               "front-end's own connections receive exactly the listed live ids in place. All three slice cases of FrontGroup.Remove are modelled "
+               "front-end's own connections receive exactly the listed live ids in place. Retained *Channel handles are inside the model: "
+               "DeleteChannel only unbinds the name and the object lives on; proved, for every history mixing by-name and handle operations "
+               "(c.Add, c.Leave, c.PushMessage, FreeTempChannel(c)), that every channel OBJECT, bound or detached, holds per front exactly the fold "
+               "of the membership operations that resolved to it (AddToChannel(c) to the object AddChannel(c) returns at that moment, "
+               "LeaveFromChannel(c) to the object c denotes at that moment, handle operations to their object; by induction over all histories) "
+               "and that a broadcast through any handle lists exactly that; that a handle whose object is still bound is the by-name operation, that "
+               "a broadcast through a stale handle lists per front exactly what the name listed when it was deleted changed only by Add/Leave "
+               "through that very handle (re-creating, joining, leaving or deleting the name, other handles and FreeTempChannel do not touch it), "
+               "that stale-handle operations change nothing a by-name operation sees, and that such histories reach no by-name state that "
+               "by-name histories do not reach (so the by-name theorems hold for them); the by-name fold theorems (count, order, isolation_history) "
+               "are statements about the fold that broadcast_lists_current_members ties to the model, and broadcast_tuple_count_and_order restates them "
+               "on the tuples the model's Channel.PushMessage emits. The pushLocal branch for an issuing service WITHOUT a \"sessions\" component "
+               "(a back-end service) is modelled: nothing is delivered in place, the tuples are unchanged and every front the directory knows - the "
+               "issuer's own name included - is sent exactly one sys.pushmsg (issuer_without_sessions_requests_every_known_front). All three slice cases of FrontGroup.Remove are modelled "
                "literally and proved equal to erase-first. The model is tied to the Go code on every run by executing both on generated histories "
-               "(3 channels + temp channels x 3 fronts x ids with duplicates, targeted first/middle/last removals, malformed lines) and the "
+               "(3 channels + temp channels x 3 fronts x ids with duplicates, targeted first/middle/last removals, retained handles used after their name "
+               "was deleted or re-bound, malformed lines) and the "
                "property predicate (an independent flat bookkeeping in the driver) is evaluated on the implementation's own observations.",
     level_note="Trusted: Lean kernel, harness/driver line protocol and canonicalisation (tuples sorted by front; tuples with an empty id list are not compared, only counted for the once-per-front flag), sync.Map as a linearizable map used "
                "from one goroutine, the JSON client serializer on [A-Za-z0-9._-] strings. The theorems are about the model; the differential run "
                "ties it to the code on sampled histories plus a bounded-exhaustive enumeration (thorough tier). Not covered: the actor transport "
                "between a back-end's PushMessageByIds and a remote front-end's sys.pushmsg (property C03), concurrent use of one channel service "
-               "from several goroutines.",
+               "from several goroutines, a client whose send queue is full (Session.Push blocks the loop: no liveness claim), a push implementation "
+               "that queues the id slice (IPushMessager is an interface; impls serializes or iterates it synchronously). sys.pushmsg handled by a service that has no \"sessions\" component is not exercised (Entry.PushMsg does an unchecked type assertion on a nil component and panics instead of reaching its `sc == nil` branch; harness and driver answer bad-op). FreeTempChannel deletes by name: "
+               "called with a stale handle whose name was re-created it unbinds the NEW object (proved as free_is_delete_of_the_name + witness, "
+               "exercised by the harness; unreachable through AllocTempChannel names before the 2^32 wrap of the process-global counter).",
     lean_targets=["Cell2v.Props.C16", "modeld_c16"],
     driver="modeld_c16",
     driver_root="Cell2v.Driver.C16",
     audit="Audit/C16.lean",
     required_theorems=["broadcast_lists_current_members", "count_eq", "order_is_join_order", "at_most_once_per_front",
                        "isolation", "isolation_history", "leave_absent_is_noop", "remove_is_erase_first", "removed_or_never_added_not_listed", "service_is_a_map", "front_fanout", "bcast_local_delivery", "push_reaches_only_the_addressed_front", "closed_connection_does_not_affect_others",
-                       "push_inside_session_add_reaches_new_connection", "push_inside_session_remove_skips_removed"],
+                       "push_inside_session_add_reaches_new_connection", "push_inside_session_remove_skips_removed",
+                       "handle_histories_reach_only_name_states", "handle_on_bound_channel_is_the_name_operation",
+                       "stale_handle_broadcast_lists_the_objects_members", "deleted_channel_object_keeps_its_members",
+                       "stale_handle_ops_do_not_touch_the_map", "stale_object_changes_only_through_its_handle", "free_is_delete_of_the_name",
+                       "broadcast_tuple_count_and_order", "issuer_without_sessions_requests_every_known_front", "session_ids_fresh_before_wrap",
+                       "object_members_are_the_fold_of_resolved_operations", "handle_broadcast_lists_object_members",
+                       "object_changes_only_by_operations_resolved_to_it"],
     harness_pkg="./c16",
     mode="diff",
     reset_prefix="reset",
     runs={
         "quick": [dict(name="main", env={"VERIF_N": "1200"}, timeout=240),
-                  dict(name="exh4", test="TestExhaustive", env={"VERIF_DEPTH": "4"}, timeout=240)],
-        "thorough": [dict(name="main", env={"VERIF_N": "20000", "VERIF_BIG": "80", "VERIF_SESS": "2000", "VERIF_RACE": "400", "VERIF_TWO": "600", "VERIF_CLOSED": "600"}, timeout=1500),
+                  dict(name="exh4", test="TestExhaustive", env={"VERIF_DEPTH": "4"}, timeout=240),
+                  dict(name="exhh4", test="TestHandlesExhaustive", env={"VERIF_DEPTH": "4"}, timeout=240)],
+        "thorough": [dict(name="main", env={"VERIF_N": "20000", "VERIF_BIG": "80", "VERIF_SESS": "2000", "VERIF_RACE": "400", "VERIF_TWO": "600", "VERIF_CLOSED": "600", "VERIF_HANDLE": "2000", "VERIF_BACKEND": "600"}, timeout=1500),
                      dict(name="seed2", env={"VERIF_N": "10000", "VERIF_BIG": "80", "VERIF_SESS": "1000"}, seed_offset=1000, timeout=1500),
-                     dict(name="exh6", test="TestExhaustive", env={"VERIF_DEPTH": "6"}, timeout=1500)],
+                     dict(name="exh6", test="TestExhaustive", env={"VERIF_DEPTH": "6"}, timeout=1500),
+                     dict(name="exhh6", test="TestHandlesExhaustive", env={"VERIF_DEPTH": "6"}, timeout=1500)],
     },
     trivial=r"^(ok|nil|bad-op|dl=|dl= cb=1|n=0 \| once=1 dl= sent= dlb=)?$",
     rule="op lines generated from one PRNG (VERIF_SEED): cases of 10-80 operations after `reset local=<front>` over channels a,b,c and temp "
          "channels (AllocTempChannel/FreeTempChannel), fronts f1,f2,f3, ids 1..7 plus 0 and 2^32-1; joins (a quarter of them duplicates of a "
          "listed id), leaves (two thirds aimed at the first/middle/last/random element of a real group, the rest at random incl. absent ids, "
          "missing groups and channels), broadcasts, create/fetch/delete, session add/remove, direct ClientSessions.PushMsg and sys.pushmsg with "
-         "live/unknown/duplicate ids, ~2% malformed lines; every case ends with a broadcast on each channel; corpus first; large-group cases (9 quick / 80 thorough per run): one group of 130-600 ids from a counter (a third with a run of duplicates) emptied from the newest end, the oldest end or at random through range ops, with a broadcast after every chunk and single steps around sizes 32/64/128/212; concurrent-membership cases (40 / 400): while a broadcast is in flight — after the channel took a front's id list, before the push layer reads it — another goroutine issues a leave (mostly of a middle member) or join on that same front; every front must receive the snapshot; two-front-end cases (60 / 600): two front-end services in one process whose connections are numbered alike but differ in which are live, ClientSessions.PushMsg and sys.pushmsg (through the one shared sys entry object) addressed to each in turn in both orders, broadcasts of channels spanning the issuing front-end, the second one and a remote-only third, issued through the real impls.PushMessageByIds (requests sent onward are captured from ns.RequestEx and handed to the addressed service); three quarters of the ordinary cases also host a second front-end; closed-connection cases (60 / 600): a registered connection whose Push returns an error (socket closed, not yet removed; the recording fake session does that after `sclose`) listed at the first, a middle and the last position of multi-id ClientSessions.PushMsg / sys.pushmsg calls and among the members of a broadcast, on the issuing and on the second front-end; session-callback cases (60 / 2000): a recording ISessionsHandler whose OnSessionAdd pushes (ClientSessions.PushMsg) or joins+broadcasts (through the real push impl, in place) to lists naming the connection being added, and whose OnSessionRemove pushes to lists naming the one being removed; plus every history "
-         "of length <= 4 (quick) / 6 (thorough) over a 7-operation alphabet followed by a broadcast. A case is non-trivial when its observation "
+         "live/unknown/duplicate ids, ~2% malformed lines; every case ends with a broadcast on each channel; corpus first; large-group cases (9 quick / 80 thorough per run): one group of 130-600 ids from a counter (a third with a run of duplicates) emptied from the newest end, the oldest end or at random through range ops, with a broadcast after every chunk and single steps around sizes 32/64/128/212; concurrent-membership cases (40 / 400): while a broadcast is in flight — after the channel took a front's id list, before the push layer reads it — another goroutine issues a leave (mostly of a middle member) or join on that same front; every front must receive the snapshot; two-front-end cases (60 / 600): two front-end services in one process whose connections are numbered alike but differ in which are live, ClientSessions.PushMsg and sys.pushmsg (through the one shared sys entry object) addressed to each in turn in both orders, broadcasts of channels spanning the issuing front-end, the second one and a remote-only third, issued through the real impls.PushMessageByIds (requests sent onward are captured from ns.RequestEx and handed to the addressed service); three quarters of the ordinary cases also host a second front-end; closed-connection cases (60 / 600): a registered connection whose Push returns an error (socket closed, not yet removed; the recording fake session does that after `sclose`) listed at the first, a middle and the last position of multi-id ClientSessions.PushMsg / sys.pushmsg calls and among the members of a broadcast, on the issuing and on the second front-end; session-callback cases (60 / 2000): a recording ISessionsHandler whose OnSessionAdd pushes (ClientSessions.PushMsg) or joins+broadcasts (through the real push impl, in place) to lists naming the connection being added, and whose OnSessionRemove pushes to lists naming the one being removed; retained-handle cases (80 / 2000, generated last): the harness keeps every *Channel it was handed; names a, b and temp channels are deleted and re-created while c.Add / c.Leave (two thirds aimed at a listed id) / c.PushMessage / FreeTempChannel go through bound handles, stale handles and stale handles whose name denotes a newer object (and now and then a handle not handed out yet), interleaved with the by-name operations; each case ends with a broadcast through every handle and on every name; issuer-without-sessions cases (40 / 600, generated after those): `reset ... nosess=1` builds the issuing service without a \"sessions\" component (names f1, f2, f3 and chat-1, which the directory does not know), members are joined under the issuer's own name, other fronts and an unknown name, broadcasts by name and through handles go through the real impls.PushMessageByIds: no in-place delivery, one captured sys.pushmsg per known front with members incl. the issuer itself; plus every history "
+         "of length <= 4 (quick) / 6 (thorough) over a 7-operation alphabet followed by a broadcast, and every history of that length over a second 7-letter alphabet mixing join / delete / re-create by name with Add / Leave / FreeTempChannel through the handles of the first two objects, followed by a broadcast through both handles and by name. A case is non-trivial when its observation "
          "is a value (channel identity, tuples, deliveries); distinct = distinct (op, observation) pairs",
     trusted_base=[
         "Lean 4.33.0 kernel; axioms of every property theorem audited on each run (allowed: propext, Classical.choice, Quot.sound)",
@@ -54,14 +79,17 @@ CONFIG = dict(
         "directory {f1,f2,f3} set through Cluster.UpdateClusterTopology; a captured sys.pushmsg for the second front-end is deserialized and "
         "handed to the shared builtin.Entry.PushMsg with that service as the owning actor",
         "client serializer = encoding/json on a string of [A-Za-z0-9._-] (quote, bytes, quote)",
-        "harness canonicalisation (channel objects numbered in order of first appearance, panics mapped to 'panic')",
+        "harness canonicalisation (channel objects numbered in order of first appearance, panics mapped to 'panic'); a handle `h=N` is the N-th "
+        "object so numbered — every creating call returns the object, so the numbering is the creation order the model counts",
     ],
     assumptions=[
         "sync.Mutex gives mutual exclusion: the group lock held by Channel.PushMessage across the push call keeps a concurrent Leave/Add of that "
         "front out until the tuple was consumed (the harness's sink starts that operation on another goroutine and gives it 1 ms before reading "
         "the list; in the unchanged code it cannot run, so the observation does not depend on timing)",
         "one goroutine uses a channel service at a time (the code's own stated discipline; getGroup/AddChannel are Load-then-Store, not LoadOrStore)",
-        "fewer than 2^32 sessions are allocated by one front-end (SerialIdService wrap is modelled but not reached by the harness)",
+        "fewer than 2^32 - 2 sessions are allocated by one front-end: under exactly that bound on the history session_ids_fresh_before_wrap proves the "
+        "hypotheses of session_id_fresh in every reachable state (the SerialIdService wrap itself is modelled but not reached by the harness; on a wrap Go "
+        "overwrites the table entry of a still-live id with the new connection, which the model's id set cannot tell apart)",
         "the push layer does not retain the id slice beyond the call (true for impls: serialized or iterated synchronously)",
     ],
 )
